@@ -8,8 +8,8 @@ import subprocess
 import sys
 import time
 
-V = '/verif'
-REPO = '/repo'
+V = os.environ.get('VERIF_ROOT', '/verif')
+REPO = os.environ.get('VERIF_REPO', '/repo')
 BUILD = V + '/_build'
 COQ = V + '/coq'
 
@@ -215,10 +215,23 @@ def forbidden_tokens():
     return bad
 
 
+def coq_project():
+    """_CoqProject is derived from the tree: every .v under Base Gen Model Proofs Props"""
+    files = []
+    for d in ('Base', 'Gen', 'Model', 'Proofs', 'Props'):
+        files += sorted(os.path.relpath(f, COQ) for f in glob.glob('%s/%s/*.v' % (COQ, d)))
+    txt = '-Q . Pika\n' + '\n'.join(files) + '\n'
+    p = COQ + '/_CoqProject'
+    old = open(p).read() if os.path.exists(p) else None
+    if old != txt:
+        open(p, 'w').write(txt)
+    if old != txt or not os.path.exists(COQ + '/Makefile'):
+        sh('coq_makefile -f _CoqProject -o Makefile', cwd=COQ)
+
+
 def coq_make(ctx, target_vo):
     """full .vo build of everything <target_vo> depends on (never -vos)"""
-    if not os.path.exists(COQ + '/Makefile') or os.path.getmtime(COQ + '/Makefile') < os.path.getmtime(COQ + '/_CoqProject'):
-        sh('coq_makefile -f _CoqProject -o Makefile', cwd=COQ)
+    coq_project()
     lock = BUILD + '/.coq.lock'
     rc, o = sh('flock %s timeout 1500 make -k -j16 %s 2>&1' % (lock, target_vo), cwd=COQ, timeout=1600)
     ctx.log('make', target_vo, 'rc', rc)
